@@ -60,10 +60,16 @@ func (v *VUrl) getValidFn(validName string) (CommonValidFn, error) {
 // validate 验证执行体
 func (v *VUrl) validate(value string) *VUrl {
 	// 解码处理
-	decUrl, err := url.QueryUnescape(value)
-	if err != nil {
-		v.errBuf.WriteString(GetJoinFieldErr("", "", "url unescape is failed, err: "+err.Error()))
-		return v
+	// 1. 如果 url 中没有 "?", 说明整个 url 被编码了, 需要先整体解码再分割
+	// 2. 否则先按 "&", "=" 分割再对 key, val 分别解码, 这样 val 中被编码的 "&", "=" 才不会被当做分隔符
+	isDecWhole := !strings.Contains(value, "?")
+	decUrl := value
+	if isDecWhole {
+		var err error
+		if decUrl, err = url.QueryUnescape(value); err != nil {
+			v.errBuf.WriteString(GetJoinFieldErr("", "", "url unescape is failed, err: "+err.Error()))
+			return v
+		}
 	}
 	urlQuery := ""
 	queryIndex := strings.Index(decUrl, "?")
@@ -85,6 +91,16 @@ func (v *VUrl) validate(value string) *VUrl {
 		}
 		if l > 1 {
 			val = key2val[1]
+		}
+		if !isDecWhole {
+			var err error
+			if key, err = url.QueryUnescape(key); err == nil {
+				val, err = url.QueryUnescape(val)
+			}
+			if err != nil {
+				v.errBuf.WriteString(GetJoinFieldErr("", "", "url unescape is failed, err: "+err.Error()))
+				return v
+			}
 		}
 
 		validNames := v.ruleObj.Get(key)
